@@ -33,10 +33,13 @@ Proof. unfold satisfied_m_b, satisfied_m. apply sat_b_iff. Qed.
 Lemma otherwise_valid_b_iff m : otherwise_valid_b m = true <-> otherwise_valid m.
 Proof.
   unfold otherwise_valid_b, otherwise_valid.
+  destruct (sig_in_profile (m_rs m)), (sig_in_profile (m_as m));
   destruct (m_bind m), (a_who m), (r_who m); cbn; split; intros H;
     try reflexivity; try discriminate;
     try (repeat split; try discriminate; auto; fail);
-    try (exfalso; destruct H as (H1 & H2 & [H3 | H3]); first [ apply H1; reflexivity | apply H2; reflexivity | discriminate ]).
+    try (exfalso; destruct H as (H1 & H2 & H3 & H4 & H5);
+         first [ discriminate H4 | discriminate H5 | apply H1; reflexivity | apply H2; reflexivity
+               | destruct H3; discriminate ]).
 Qed.
 
 Lemma spec_m_b_iff c m i : spec_m_b c m i = true <-> spec_m c m i.
@@ -64,7 +67,8 @@ Definition rel_sound (r : sres) (s : sigst) : bool :=
   match r, s with
   | SAbsent, Absent => true
   | SOk, Valid => true
-  | SMissingKey, (Valid | Corrupt | Untrusted) | SSigErr, (Valid | Corrupt | Untrusted) => true
+  | SMissingKey, (Valid | Corrupt | Untrusted) | SSigErr, (Valid | Corrupt | Untrusted)
+  | SCrash, (Valid | Corrupt | Untrusted) => true
   | _, _ => false
   end.
 (* exact: moreover every Valid signature is found good *)
@@ -72,9 +76,40 @@ Definition rel_exact (r : sres) (s : sigst) : bool :=
   match r, s with
   | SAbsent, Absent => true
   | SOk, Valid => true
-  | SMissingKey, (Corrupt | Untrusted) | SSigErr, (Corrupt | Untrusted) => true
+  | SMissingKey, (Corrupt | Untrusted) | SSigErr, (Corrupt | Untrusted) | SCrash, (Corrupt | Untrusted) => true
   | _, _ => false
   end.
+
+(* ---- the profile validators of the code vs. the XML Signature profile of SAML core 5.4 --------------- *)
+
+Definition passes (s : shape) : bool := match profile_gate s with GPass => true | _ => false end.
+
+(* the validators table + the only-Signature-child test let through exactly the signatures in profile
+   form, for Reference and Transform lists of ANY length *)
+Lemma gate_is_profile s : passes s = in_profile s.
+Proof.
+  destruct s as [rf c t o x]. unfold passes, profile_gate, in_profile, parsed, sole, only_signature_child.
+  cbn [refs c14n trs obj xsig].
+  destruct x.
+  - destruct rf as [|r [|r' rf]]; destruct t as [|t1 [|t2 [|t3 t]]];
+      try (destruct r); try (destruct t1); try (destruct t2); destruct c, o; reflexivity.
+  - rewrite andb_false_r. cbn [negb]. destruct (crashes _); [reflexivity|]. destruct (validators _); reflexivity.
+  - rewrite andb_false_r. cbn [negb]. destruct (crashes _); [reflexivity|]. destruct (validators _); reflexivity.
+Qed.
+
+Lemma gate_pass_profile s : profile_gate s = GPass -> in_profile s = true.
+Proof. intros H. rewrite <- gate_is_profile. unfold passes. rewrite H. reflexivity. Qed.
+
+Lemma profile_gate_pass s : in_profile s = true -> profile_gate s = GPass.
+Proof. rewrite <- gate_is_profile. unfold passes. destruct (profile_gate s); congruence. Qed.
+
+(* a signature in profile form digests the element that carries it and is the only one *)
+Lemma profile_covers s : in_profile s = true -> covers_own s = true /\ sole s = true.
+Proof.
+  destruct s as [rf c t o x]. unfold in_profile, covers_own. cbn [refs c14n trs obj xsig].
+  intros H. apply andb_true_iff in H. destruct H as [H Hs]. split; [|exact Hs].
+  destruct rf as [|[] [|r' rf]]; try discriminate H. reflexivity.
+Qed.
 
 Lemma rel_exact_sound r s : rel_exact r s = true -> rel_sound r s = true.
 Proof. destruct r, s; cbn; congruence. Qed.
@@ -93,31 +128,63 @@ Qed.
 
 (* key choice + verification of one element whose schema is in order: exactly the trusted, intact
    signatures pass (2 x 4 x 37 cells) *)
-Lemma look_exact c w s : rel_exact (look (only_md c) w true s) (state c w s) = true.
+Lemma look_exact c w s :
+  sig_in_profile s = true -> rel_exact (look (only_md c) w true s) (state c w s) = true.
 Proof.
-  unfold state, trusted.
-  destruct (only_md c), w, s as [[[] [] []]|]; reflexivity.
+  destruct s as [[k i cr sh]|]; [|reflexivity]. cbn [sig_in_profile shp]. intros Hp.
+  destruct (profile_covers sh Hp) as [Hc Hs]. pose proof (profile_gate_pass sh Hp) as Hg.
+  unfold look, check_signature, state, trusted, xmlsec_verify, instance_certs, ships_signer. cbn [shp signer ki corrupt].
+  rewrite Hg, Hc, Hs.
+  destruct (only_md c), w, k, i, cr; reflexivity.
+Qed.
+
+(* a present signature is never overlooked, whatever its shape *)
+Lemma look_present only w ok g : look only w ok (Some g) <> SAbsent.
+Proof. unfold look. destruct (check_signature only w ok g); discriminate. Qed.
+
+Lemma state_present c w g : state c w (Some g) <> Absent.
+Proof.
+  unfold state. destruct (corrupt g || negb (covers_own (shp g)) || negb (sole (shp g))); [discriminate|].
+  destruct (trusted c w g); discriminate.
+Qed.
+
+(* a signature outside the profile never passes *)
+Lemma look_off_profile only w ok g : in_profile (shp g) = false -> look only w ok (Some g) <> SOk.
+Proof.
+  intros Hp. rewrite <- gate_is_profile in Hp. unfold passes in Hp.
+  unfold look, check_signature.
+  destruct (is_nil _); [discriminate|]. destruct (negb ok); [discriminate|].
+  destruct (profile_gate (shp g)); [discriminate Hp | discriminate | discriminate].
 Qed.
 
 (* an element that fails the schema never passes, whichever issuer the keys are looked up for *)
-Lemma look_noschema only w s :
-  match look only w false s with SAbsent => s = None | SOk => False | _ => s <> None end.
-Proof. destruct only, w, s as [[[] [] []]|]; cbn; congruence. Qed.
+Lemma look_noschema only w g : look only w false (Some g) <> SOk.
+Proof.
+  unfold look, check_signature. destruct (is_nil _); [discriminate|]. cbn [negb]. discriminate.
+Qed.
+
+Lemma rel_sound_notok c w r g :
+  r <> SAbsent -> r <> SOk -> rel_sound r (state c w (Some g)) = true.
+Proof.
+  intros H1 H2. pose proof (state_present c w g) as H3.
+  destruct r, (state c w (Some g)); try reflexivity; congruence.
+Qed.
 
 Lemma look_noschema_sound c w w' s : rel_sound (look (only_md c) w false s) (state c w' s) = true.
 Proof.
-  pose proof (look_noschema (only_md c) w s) as H.
-  destruct (look _ _ false s); try contradiction.
-  - rewrite H. reflexivity.
-  - unfold state. destruct s as [g|]; [|congruence].
-    destruct (corrupt g); [reflexivity|]. destruct (trusted c w' g); reflexivity.
-  - unfold state. destruct s as [g|]; [|congruence].
-    destruct (corrupt g); [reflexivity|]. destruct (trusted c w' g); reflexivity.
+  destruct s as [g|]; [|reflexivity].
+  apply rel_sound_notok; [apply look_present | apply look_noschema].
 Qed.
 
-(* whatever the schema check says: never more than the trusted, intact signatures pass *)
+(* whatever the schema check says and whatever the shape of the signature: never more than the
+   trusted, intact signatures over the element itself pass *)
 Lemma look_sound c w ok s : rel_sound (look (only_md c) w ok s) (state c w s) = true.
-Proof. destruct ok; [apply rel_exact_sound, look_exact | apply look_noschema_sound]. Qed.
+Proof.
+  destruct ok; [|apply look_noschema_sound].
+  destruct (sig_in_profile s) eqn:Hp; [apply rel_exact_sound, look_exact, Hp|].
+  destruct s as [g|]; [|discriminate Hp].
+  apply rel_sound_notok; [apply look_present | apply look_off_profile, Hp].
+Qed.
 
 (* ... and whichever issuer the keys are looked up for (the assertion's own, or the Response's for an
    encrypted assertion without Issuer) *)
@@ -125,21 +192,21 @@ Lemma look_sound_a c m :
   rel_sound (look (only_md c) (a_issuer m) (has_issuer (a_who m)) (m_as m)) (a_state c m) = true.
 Proof.
   unfold a_state, a_issuer.
-  destruct (a_who m) eqn:Ha; cbn [has_issuer]; try (apply rel_exact_sound, look_exact).
+  destruct (a_who m) eqn:Ha; cbn [has_issuer]; try (apply look_sound).
   apply look_noschema_sound.
 Qed.
 
 Lemma look_exact_r c m :
-  has_issuer (a_who m) = true ->
+  has_issuer (a_who m) = true -> sig_in_profile (m_rs m) = true ->
   rel_exact (look (only_md c) (r_who m) (r_schema_ok m) (m_rs m)) (r_state c m) = true.
-Proof. intros H. unfold r_schema_ok, r_state. rewrite H, orb_true_r. apply look_exact. Qed.
+Proof. intros H Hp. unfold r_schema_ok, r_state. rewrite H, orb_true_r. apply look_exact, Hp. Qed.
 
 Lemma look_exact_a c m :
-  has_issuer (a_who m) = true ->
+  has_issuer (a_who m) = true -> sig_in_profile (m_as m) = true ->
   rel_exact (look (only_md c) (a_issuer m) (has_issuer (a_who m)) (m_as m)) (a_state c m) = true.
 Proof.
-  intros H. unfold a_state, a_issuer. rewrite H.
-  destruct (a_who m); try discriminate; apply look_exact.
+  intros H Hp. unfold a_state, a_issuer. rewrite H.
+  destruct (a_who m); try discriminate; apply look_exact, Hp.
 Qed.
 
 (* ---- the two-pass control flow over what it finds --------------------------------------------------- *)
@@ -179,10 +246,12 @@ Proof.
   - unfold satisfied_m_b. exact (core_sound _ _ _ _ _ _ _ _ _ Hr Ha).
   - destruct (satisfied_m_b c m && otherwise_valid_b m) eqn:Hs; [|reflexivity].
     cbn [implb]. apply andb_true_iff in Hs. destruct Hs as [Hs Ho].
-    unfold otherwise_valid_b in Ho. apply andb_true_iff in Ho. destruct Ho as [Ho Him].
+    unfold otherwise_valid_b in Ho. apply andb_true_iff in Ho. destruct Ho as [Ho Hpa].
+    apply andb_true_iff in Ho. destruct Ho as [Ho Hpr].
+    apply andb_true_iff in Ho. destruct Ho as [Ho Him].
     apply andb_true_iff in Ho. destruct Ho as [Hb Hi].
     unfold issuers_match. rewrite Him.
-    pose proof (core_complete (wr_c c) (wa_c c) (wor_c c) r a (r_state c m) (a_state c m) (m_bind m) (Hre Hi) (Hae Hi)) as Hc.
+    pose proof (core_complete (wr_c c) (wa_c c) (wor_c c) r a (r_state c m) (a_state c m) (m_bind m) (Hre Hi Hpr) (Hae Hi Hpa)) as Hc.
     unfold satisfied_m_b in Hs. rewrite Hs, Hb in Hc. exact Hc.
 Qed.
 
@@ -203,13 +272,17 @@ Proof. unfold sp_run. rewrite map_app. reflexivity. Qed.
 (* ---- the message cannot vouch for its own key ---------------------------------------------------- *)
 
 Definition strip_ki_sig (s : option sgn) : option sgn :=
-  match s with None => None | Some g => Some {| signer := signer g; ki := KiNone; corrupt := corrupt g |} end.
+  match s with None => None | Some g => Some {| signer := signer g; ki := KiNone; corrupt := corrupt g; shp := shp g |} end.
 Definition strip_ki (m : msg) : msg :=
   {| r_who := r_who m; a_who := a_who m; m_rs := strip_ki_sig (m_rs m); m_as := strip_ki_sig (m_as m);
      m_enc := m_enc m; m_bind := m_bind m |}.
 
 Lemma look_ignores_keyinfo w ok s : look true w ok (strip_ki_sig s) = look true w ok s.
-Proof. destruct w, ok, s as [[[] [] []]|]; reflexivity. Qed.
+Proof.
+  destruct s as [[k i cr sh]|]; [|reflexivity].
+  unfold look, strip_ki_sig, check_signature, xmlsec_verify. cbn [shp signer ki corrupt].
+  destruct (profile_gate sh); destruct w, ok, k, i, cr; reflexivity.
+Qed.
 
 (* with only_use_keys_in_metadata in force (the default) the KeyInfo of the message is irrelevant *)
 Lemma keyinfo_ignored c m : only_md c = true -> parse_message c (strip_ki m) = parse_message c m.
@@ -223,14 +296,41 @@ Qed.
    metadata does not publish as a signing key of the issuer the signed element names — or made over
    other content — never yields an identity, whatever the three want_* options say *)
 Definition vouched (w : who) (s : option sgn) : Prop :=
-  match s with None => True | Some g => corrupt g = false /\ md_trusts w (signer g) = true end.
+  match s with
+  | None => True
+  | Some g => corrupt g = false /\ covers_own (shp g) = true /\ xsig (shp g) = XNone /\ md_trusts w (signer g) = true
+  end.
 
 Lemma state_ok_vouched c w s : only_md c = true -> ok (state c w s) -> vouched w s.
 Proof.
-  unfold state, trusted, ok, vouched. intros H. rewrite H. cbn [negb andb].
+  unfold state, trusted, ok, vouched, sole. intros H. rewrite H. cbn [negb andb].
   destruct s as [g|]; [|trivial].
   destruct (corrupt g); [intros [K|K]; discriminate|].
+  destruct (covers_own (shp g)); [|intros [K|K]; discriminate].
+  destruct (xsig (shp g)); cbn [negb orb]; try (intros [K|K]; discriminate).
   rewrite orb_false_r. destruct (md_trusts w (signer g)); [auto | intros [K|K]; discriminate].
+Qed.
+
+(* whatever the options (the opt-out of only_use_keys_in_metadata included): an identity is never
+   produced from a message that carries a signature outside the XML Signature profile — in particular
+   one whose Reference selects ANOTHER element (signature wrapping), or that comes with a second
+   ds:Signature child *)
+Lemma core_needs_findings w1 w2 w3 r a im b :
+  core w1 w2 w3 r a im b = true -> (r = SAbsent \/ r = SOk) /\ (a = SAbsent \/ a = SOk).
+Proof. destruct r, a, w1, w2, w3, im, b; cbn; intros H; try discriminate H; auto. Qed.
+
+Lemma look_ok_profile only w ok s : look only w ok s = SAbsent \/ look only w ok s = SOk -> sig_in_profile s = true.
+Proof.
+  destruct s as [g|]; [|reflexivity]. cbn [sig_in_profile]. intros [H|H].
+  - exfalso. exact (look_present _ _ _ _ H).
+  - destruct (in_profile (shp g)) eqn:Hp; [reflexivity|]. exfalso. exact (look_off_profile _ _ _ _ Hp H).
+Qed.
+
+Lemma identity_needs_profile c m :
+  parse_message c m = true -> sig_in_profile (m_rs m) = true /\ sig_in_profile (m_as m) = true.
+Proof.
+  rewrite parse_message_eq. intros H. apply core_needs_findings in H. destruct H as [Hr Ha].
+  split; eapply look_ok_profile; eauto.
 Qed.
 
 Lemma identity_needs_metadata_keys c m :
@@ -262,10 +362,13 @@ Proof.
   rewrite !state_sgn_of. reflexivity.
 Qed.
 
+Lemma sgn_of_in_profile s : sig_in_profile (sgn_of s) = true.
+Proof. destruct s; reflexivity. Qed.
+
 Lemma spec_b_embed x i : spec_m_b (config_of x) (msg_of x) i = spec_b x i.
 Proof.
   unfold spec_m_b, spec_b. rewrite satisfied_b_embed. unfold otherwise_valid_b, msg_of; cbn.
-  rewrite !andb_true_r. reflexivity.
+  rewrite !sgn_of_in_profile, !andb_true_r. reflexivity.
 Qed.
 
 (* the truth table of round 1 (4^3 option settings x 4 x 4 signature states x 2 x 4 bindings = 8192
@@ -279,7 +382,8 @@ Proof. apply spec_b_iff, table. Qed.
 (* ---- non-vacuity ----------------------------------------------------------------------------------- *)
 
 Definition defaults := {| c_wr := Unset; c_wa := Unset; c_wor := Unset; c_only := Unset |}.
-Definition by_ (k : key) (i : kinfo) (c : bool) := Some {| signer := k; ki := i; corrupt := c |}.
+Definition by_ (k : key) (i : kinfo) (c : bool) := Some {| signer := k; ki := i; corrupt := c; shp := std |}.
+Definition shaped (k : key) (s : shape) := Some {| signer := k; ki := KiNone; corrupt := false; shp := s |}.
 
 (* the accepted cell of the defaults *)
 Example accepts_signed_response :
@@ -311,4 +415,26 @@ Example forged_after_genuine :
   let g := {| r_who := WIdp; a_who := WIdp; m_rs := None; m_as := by_ KIdp KiNone false; m_enc := false; m_bind := POST |} in
   let f := {| r_who := WIdp; a_who := WIdp; m_rs := None; m_as := by_ KIdp KiNone true; m_enc := false; m_bind := POST |} in
   sp_run c [g; f; g] = [true; false; true].
+Proof. reflexivity. Qed.
+
+(* signature wrapping: the forged assertion carries the genuine IdP signature of ANOTHER assertion that
+   is parked in the same document (Reference "#<its ID>"): xmlsec1 would say OK, the profile validators
+   refuse; alone or with an in-profile decoy ds:Signature behind it *)
+Example wrapped_assertion_rejected :
+  let c := {| c_wr := B false; c_wa := B true; c_wor := Unset; c_only := Unset |} in
+  let wrap x := {| refs := [ROther]; c14n := CExc; trs := [TEnv; TExc]; obj := false; xsig := x |} in
+  let m x := {| r_who := WIdp; a_who := WIdp; m_rs := None; m_as := shaped KIdp (wrap x); m_enc := false; m_bind := POST |} in
+  sp_run c [m XNone; m XAfter; m XBefore] = [false; false; false]
+  /\ spec_seq_b c [m XNone; m XAfter; m XBefore] [true; false; false] = false.
+Proof. split; reflexivity. Qed.
+
+(* the other legal spellings of the profile are accepted *)
+Example profile_spellings_accepted :
+  let c := {| c_wr := B false; c_wa := B true; c_wor := Unset; c_only := Unset |} in
+  let m s := {| r_who := WIdp; a_who := WIdp; m_rs := None; m_as := shaped KIdp s; m_enc := false; m_bind := POST |} in
+  sp_run c [m {| refs := [ROwn]; c14n := CExcWC; trs := [TEnv]; obj := false; xsig := XNone |};
+            m {| refs := [ROwn]; c14n := CExc; trs := [TExcWC; TEnv]; obj := false; xsig := XNone |};
+            m {| refs := [ROwn]; c14n := CExc; trs := [TEnv; TEnv]; obj := false; xsig := XNone |};
+            m {| refs := [ROwn; ROther]; c14n := CExc; trs := [TEnv; TExc]; obj := false; xsig := XNone |}]
+  = [true; true; false; false].
 Proof. reflexivity. Qed.
